@@ -127,6 +127,8 @@ func (s *Rtmp2MpegtsRemuxer) FeedRtmpMessage(msg base.RtmpMsg) {
 }
 
 func (s *Rtmp2MpegtsRemuxer) Dispose() {
+	// messages still held by the start-up filter (a short stream, or one that showed a single track) were never remuxed
+	s.filter.Flush()
 	s.FlushAudio()
 }
 
